@@ -69,7 +69,12 @@ def _drive(run, a, q, rng, light=False):
         _safe(a.into_ranges, q, "gene", "none")
     elif k == 1:
         _safe(a.into_ranges, q, "score", np.nan)
-    else:
+    if "score" in a.data.columns and rng.random() < 0.3:
+        # the same numbers in single precision: still "floating-point numbers", still the median
+        a32 = a.add_columns(score32=a.data["score"].astype(np.float32))
+        _safe(a32.into_ranges, q, "score32", np.nan)
+        run.extra["into_ranges:float32-column"] += 1
+    if k == 2:
         _safe(a.into_ranges, q, "score", -1.0, [max, len, sum, np.nanmean][int(rng.integers(0, 4))])     # functions that see every overlapping row's value: multiplicity and missing values matter
         _safe(a.into_ranges, q, "score", -1.0)
     # single-range queries, with open bounds
